@@ -86,6 +86,8 @@ Definition specials : list special :=
       "the 2-byte per-node-type union is covered by the two bytes of its AnyData view";
     mk_special "BaseNode" "anon:_user_data_u64+_user_data_ptr" ["._user_data_u64"] "assign"
       "the 8-byte user-data union is covered by its 64-bit view";
+    mk_special "RATiedReg" "anon:_ref_count+_rm_size+_use_id+_out_id+_packed" ["._ref_count"; "._rm_size"; "._use_id"; "._out_id"] "assign"
+      "the 4-byte union {struct{_ref_count,_rm_size,_use_id,_out_id}; _packed} is covered by its four bytes";
     mk_special "CodeHolder::NamedLabelExtraData" "extra_data"
       ["._section_id"; "._internal_label_type"; "._internal_label_flags"; "._internal_uint16_data"; "._parent_id"; "._name_size"] "assign"
       "all six members of the embedded LabelEntry::ExtraData (header + parent id + name size) are assigned" ].
@@ -222,7 +224,10 @@ Definition routes : list route :=
     mk_route "obj/RABlock" ["RABlock"] [mk_root "RABlock::RABlock" FollowNone] ["this"] [];
     mk_route "obj/RAInst" ["RAInst"] [mk_root "RAInst::RAInst" FollowNone] ["this"] [];
     mk_route "obj/RAStackSlot" ["RAStackSlot"] [mk_root "RAStackAllocator::new_slot" FollowNone] ["var:slot"] [];
-    mk_route "obj/Pass" ["Pass"] [mk_root "Pass::Pass" FollowNone] ["this"] [] ]
+    mk_route "obj/Pass" ["Pass"] [mk_root "Pass::Pass" FollowNone] ["this"] [];
+    mk_route "obj/RATiedReg" ["RATiedReg"] [mk_root "RATiedReg::init" FollowNone] ["this"] [];
+    mk_route "obj/RAAssignment" ["RAAssignment"] [mk_root "RAAssignment::RAAssignment" FollowAll] ["this"] [];
+    mk_route "obj/RALiveSpans" ["RALiveSpans"] [mk_root "RALiveSpans::RALiveSpans" FollowNone] ["this"] [] ]
   ++ map (fun c => mk_route ("node/" ++ c) [c] [mk_root (ctor_of c) FollowNone] ["this"] []) node_classes
   ++ map (fun e => mk_route ("detach/" ++ fst e) (snd e)
                      [mk_root (fst e ++ "::on_detach") FollowAll; mk_root "CodeHolder::detach" FollowNone]
